@@ -14,6 +14,9 @@ class Walk:
         self.leaves = []            # dicts: decisions, ident, feasible, final, inst
         self.order_conflicts = []   # (decisions, ident_a, ident_b)
         self.infeasible_leftover_differs = 0
+        self.infeasible_decisions = []
+        self.infeasible_paths = []
+        self.infeasible_expansion_exceptions = 0
         self.exceptions = []        # (decisions, sig, msg)
         self.truncated = False
         self.infeasible_states = 0
@@ -66,9 +69,9 @@ def walk(spec, max_states=3000, record_offered=False, expand_infeasible=False):
     g0 = b.dsg
     w.initial_feasible = bool(g0.feasible)
     visited = {}
-    stack = [(frozenset(), g0)]
+    stack = [(frozenset(), g0, ())]
     while stack:
-        decisions, g = stack.pop()
+        decisions, g, path = stack.pop()
         try:
             sid = state_ident(b, g)
         except Exception as e:  # noqa
@@ -104,13 +107,27 @@ def walk(spec, max_states=3000, record_offered=False, expand_infeasible=False):
         if not feasible and not expand_infeasible:
             w.infeasible_states += 1
             w.leaves.append({'decisions': sorted(decisions), 'ident': (sid[0], sid[1]), 'feasible': False,
-                             'final': bool(g.final), 'inst': g})
+                             'final': bool(g.final), 'inst': g, 'path': list(path)})
             continue
-        nxt = [ch for ch in g.get_ordered_next_choice_nodes() if isinstance(ch, SelectionChoiceNode)]
+        if not feasible:
+            # expanding an infeasible graph (someone who only looks at feasibility at the end): adsg_core's own queries
+            # may fail on it, which is not judged; what is judged is what comes out at the end
+            w.infeasible_decisions.append(decisions)
+            w.infeasible_paths.append(list(path))
+            try:
+                nxt = [ch for ch in g.get_ordered_next_choice_nodes() if isinstance(ch, SelectionChoiceNode)
+                       and ch in g.graph.nodes]
+            except Exception as e:  # noqa
+                if exc_sig(e).endswith('@harness'):
+                    raise
+                w.infeasible_expansion_exceptions += 1
+                continue
+        else:
+            nxt = [ch for ch in g.get_ordered_next_choice_nodes() if isinstance(ch, SelectionChoiceNode)]
         w.max_parallel = max(w.max_parallel, len(nxt))
         if not nxt:
             w.leaves.append({'decisions': sorted(decisions), 'ident': (sid[0], sid[1]), 'feasible': feasible,
-                             'final': bool(g.final), 'inst': g})
+                             'final': bool(g.final), 'inst': g, 'path': list(path)})
             continue
         if not feasible:
             w.infeasible_states += 1
@@ -121,16 +138,26 @@ def walk(spec, max_states=3000, record_offered=False, expand_infeasible=False):
             for ch in nxt:
                 w.offered.append((sorted(decisions), b.nm(ch), [b.nm(o) for o in g.get_option_nodes(ch)], conf))
         for ch in nxt:
-            for opt in g.get_option_nodes(ch):
+            try:
+                opts_ = g.get_option_nodes(ch)
+            except Exception as e:  # noqa
+                if exc_sig(e).endswith('@harness') or feasible:
+                    raise
+                w.infeasible_expansion_exceptions += 1
+                continue
+            for opt in opts_:
                 try:
                     g2 = g.get_for_apply_selection_choice(ch, opt)
                 except Exception as e:  # noqa
                     if exc_sig(e).endswith('@harness'):
                         raise
+                    if not feasible:
+                        w.infeasible_expansion_exceptions += 1
+                        continue
                     w.exceptions.append((sorted(decisions | {(b.nm(ch), b.nm(opt))}), 'apply:'+exc_sig(e),
                                          f'{type(e).__name__}: {e}'[:300]))
                     continue
-                stack.append((decisions | {(b.nm(ch), b.nm(opt))}, g2))
+                stack.append((decisions | {(b.nm(ch), b.nm(opt))}, g2, path+((b.nm(ch), b.nm(opt)),)))
     return w
 
 
@@ -162,3 +189,25 @@ def closure_violations(b, inst, spec):
             if not wired:
                 out.append(('choice_unresolved', [c['id'], c['origin']]))
     return out
+
+
+def replay_fresh(spec, path):
+    """Takes the decisions of `path` in that order on a freshly built graph (cold caches, no sibling graphs derived
+    before); returns (feasible, final, ident) or None if a step is not available"""
+    from adsg_core.graph.adsg_nodes import SelectionChoiceNode
+    build.reset_globals()
+    b = build.build(spec)
+    g = b.dsg
+    for cid, opt in path:
+        ch = b.choice.get(cid)
+        if ch is None or ch not in g.graph.nodes:
+            return None
+        try:
+            nxt = g.get_ordered_next_choice_nodes()
+        except Exception:  # noqa
+            return None
+        if ch not in nxt or b.node[opt] not in g.get_option_nodes(ch):
+            return None
+        g = g.get_for_apply_selection_choice(ch, b.node[opt])
+    idn = identity.instance_ident(b, g, with_dv=False)
+    return bool(g.feasible), bool(g.final), (idn[0], idn[1])
